@@ -112,6 +112,9 @@ func calleeName(c ssa.CallInstruction) string {
 		return cc.Method.Name()
 	}
 	if f := cc.StaticCallee(); f != nil {
+		if f.Origin() != nil {
+			return f.Origin().Name()
+		}
 		return f.Name()
 	}
 	return "dyn"
@@ -524,6 +527,30 @@ func errVarOf(call ssa.CallInstruction) core.VM {
 					return true
 				}
 			}
+		}
+		// a φ that merges the call's error with other definitions of the same variable
+		if phi, ok := v.(*ssa.Phi); ok {
+			seen := map[*ssa.Phi]bool{}
+			var rec func(p *ssa.Phi) bool
+			rec = func(p *ssa.Phi) bool {
+				if seen[p] {
+					return false
+				}
+				seen[p] = true
+				for _, e := range p.Edges {
+					if e == cv {
+						return true
+					}
+					if ex, ok := e.(*ssa.Extract); ok && ex.Tuple == cv {
+						return true
+					}
+					if p2, ok := e.(*ssa.Phi); ok && rec(p2) {
+						return true
+					}
+				}
+				return false
+			}
+			return rec(phi)
 		}
 		return false
 	}
